@@ -155,7 +155,7 @@ pub fn replay(prop: &str, file: &str) -> i32 {
             Ok(c) => Some(crate::props_c18::check_mig_case(&c, &mut scratch)),
             Err(_) => serde_json::from_value::<crate::props_c18::TGate>(case_v.clone()).ok().map(|c| crate::props_c18::check_tgate(&c, &mut scratch)),
         },
-        "C19" if case_v.is_string() => serde_json::from_value::<String>(case_v.clone()).ok().map(|c| crate::props_c19::check_subdenom(&c, &mut scratch)),
+        "C19" if case_v.is_array() => serde_json::from_value::<crate::props_c19::SubCase>(case_v.clone()).ok().map(|c| crate::props_c19::check_subdenom(&c, &mut scratch)),
         "C17" => serde_json::from_value::<crate::props_c17::PageCase>(case_v.clone()).ok().map(|c| crate::props_c17::check_page_case(&c, &mut scratch)),
         "C10" => serde_json::from_value::<crate::props_c10::C10Case>(case_v.clone()).ok().map(|c| crate::props_c10::check_c10_case(&c, &mut scratch)),
         "C14" => serde_json::from_value::<crate::props_config::CfgCase>(case_v.clone()).ok().map(|c| crate::props_config::check_cfg_case(&c, &mut scratch)),
